@@ -536,7 +536,12 @@ impl NISPSignaturePoK {
             + &t_2.to_string()
             + &t_3.to_string()
             + &t_4.to_string()
-            + &t_5.to_string();
+            + &t_5.to_string()
+            // the commitments the proof is about are part of the challenge
+            + &C_Cx.value().to_string()
+            + &Cv.to_string()
+            + &Cw.to_string()
+            + &C_Ce.value().to_string();
         let hash = <CS::HashAlg as Digest>::digest(str);
         let challenge = Integer::from_digits(hash.as_slice(), Order::MsfBe);
 
@@ -717,7 +722,11 @@ impl NISPSignaturePoK {
             + &input2.to_string()
             + &input3.to_string()
             + &input4.to_string()
-            + &input5.to_string();
+            + &input5.to_string()
+            + &self.Cx.to_string()
+            + &self.Cv.to_string()
+            + &self.Cw.to_string()
+            + &self.Ce.to_string();
         let hash = <CS::HashAlg as Digest>::digest(str);
         let challenge = Integer::from_digits(hash.as_slice(), Order::MsfBe);
 
